@@ -62,13 +62,15 @@ def opt_case(task):
     line = ('p1.patch ' + spelling).rstrip()
     lines = {'plain': [line], 'comments': ['# a comment', line, '#p9.patch -p7'], 'blank': ['', line, ''], 'spaces': ['   ', '\t', line, '  \t '], 'indented': ['  ' + line.replace(' ', '\t', 1) + '  '],
              # quilt cuts a series line at a '#' that follows whitespace: whatever the remark says, it is no option
+             # comments are ignored whatever their encoding (a Latin-1 letter is not valid UTF-8)
+             'latin1-comment-line': [b'# J\xf6rg: fixes', line.encode(), b'#\xff'], 'latin1-trailing-comment': [line.encode() + b' # J\xf6rg'],
              'trailing-comment': [line + ' # a remark'], 'trailing-comment-options': [line + '\t# was -p7 before; do not use -R --bogus'], 'trailing-comment-hash': [line + ' #-R']}[decor]
     ws.make_ws(root, files, {'p1.patch': text}, lines)
     o = ws.run_rq(root, ['-a', '-q', '--backup', 'never'], threads=threads, trace=os.path.join(d, 'trace'))
     snap = ws.snapshot(root)
     out = {'evals': 1, 'violations': [], 'outcomes': {'exit-' + o.cls: 1}, 'nontrivial': 1 if (rev or strip != 1 or decor != 'plain' or hdr != 'same') else 0}
     tags = wsweep.cls({'-p%d' % strip, 'spelling:' + (spelling or 'none'), 'series-file:' + decor, 'names:' + hdr} | ({'-R'} if rev else set()))
-    w = lambda extra: dict({'kind': 'cli', 'files': {k: [common.b2s(v[0]), v[1]] for k, v in files.items()}, 'patches': {'p1.patch': common.b2s(text)}, 'series': lines, 'args': ['-a', '-q', '--backup', 'never'], 'threads': threads,
+    w = lambda extra: dict({'kind': 'cli', 'files': {k: [common.b2s(v[0]), v[1]] for k, v in files.items()}, 'patches': {'p1.patch': common.b2s(text)}, 'series': [l if isinstance(l, str) else common.b2s(l) for l in lines], 'args': ['-a', '-q', '--backup', 'never'], 'threads': threads,
                             'series_desc': 'series line %r' % line}, **extra)
     got = ws.tree_of(snap)
     if o.cls != '0' or got != want or ws.applied_of(snap) != ['p1.patch']:
@@ -118,15 +120,16 @@ def strip_corner_case(task):
     o = ws.run_rq(root, ['-a', '-q', '--backup', 'never'], threads=threads, use_d=use_d, trace=os.path.join(d, 'trace'))
     got = ws.tree_of(ws.snapshot(root))
     want = dict(files)
-    want[target] = (BODY.replace(b'l1\n', b'CHANGED\n'), 0o644)
+    if target is not None:
+        want[target] = (BODY.replace(b'l1\n', b'CHANGED\n'), 0o644)
     out = {'evals': 1, 'violations': [], 'outcomes': {'strip-corner:exit-' + o.cls: 1}, 'nontrivial': 1}
     tags = wsweep.cls({'strip-corner:' + label, '-p%d' % strip, 'with-d' if use_d else 'in-cwd'})
-    if o.cls != '0' or got != want:
+    if o.cls != ('0' if target is not None else '1') or got != want:
         changed = sorted(p for p in set(got) | set(want) if got.get(p) != files.get(p))
         out['violations'].append((tags, o.cls if o.cls not in ('0', '1') else ('not-applied' if o.cls == '1' else 'wrong-file-patched'),
                                   {'kind': 'cli', 'files': {k: [common.b2s(v[0]), v[1]] for k, v in files.items()}, 'patches': {'p1.patch': common.b2s(text)}, 'series': ['p1.patch -p%d' % strip],
                                    'args': ['-a', '-q', '--backup', 'never'], 'threads': threads, 'series_desc': '%s: --- %s +++ %s at -p%d, %s' % (label, old, new, strip, 'with -d' if use_d else 'run inside of the workspace'),
-                                   'expected': 'exit 0, %s patched' % target, 'observed': 'exit %s, changed: %r' % (o.cls, changed), 'stderr': common.b2s(o.err[-300:])}))
+                                   'expected': ('exit 0, %s patched' % target) if target is not None else 'exit 1, nothing touched (no name is left)', 'observed': 'exit %s, changed: %r' % (o.cls, changed), 'stderr': common.b2s(o.err[-300:])}))
     return out
 
 
@@ -141,6 +144,10 @@ STRIP_CORNERS = [
     ('old-name-used-up', 'a/f', 'b/c/f', 2, 'f'),
     ('old-name-used-up', 'f.orig', 'b/f', 1, 'f'),
     ('new-name-used-up', 'x/y/c/f', 'c', 2, 'c/f'),
+    # nothing is left of either name: no file to patch, and certainly not the working directory
+    ('all-names-used-up', 'f', 'f', 1, None),
+    ('all-names-used-up', 'a/f', 'b/f', 2, None),
+    ('all-names-used-up', '/dev/null', 'c', 1, None),
     ('old-name-is-a-directory', 'a/sub', 'b/f', 1, 'f'),
     ('old-name-is-a-directory', 'a/b', 'b/d/f', 1, 'd/f'),
 ]
@@ -247,7 +254,7 @@ def run(tier, seed):
     for strip in (0, 1, 2):
         for rev in (False, True):
             for sp in spellings(strip, rev):
-                for decor in ('plain', 'comments', 'blank', 'spaces', 'indented', 'trailing-comment', 'trailing-comment-options', 'trailing-comment-hash'):
+                for decor in ('plain', 'comments', 'blank', 'spaces', 'indented', 'trailing-comment', 'trailing-comment-options', 'trailing-comment-hash', 'latin1-comment-line', 'latin1-trailing-comment'):
                     for depth in (1, 2, 3):
                         if tier == 'quick' and decor != 'plain' and depth != 2:
                             continue
